@@ -8,6 +8,7 @@ import (
 	"os"
 	"os/exec"
 	"path/filepath"
+	"runtime"
 	"runtime/debug"
 	"sort"
 	"strings"
@@ -1127,6 +1128,17 @@ func TestConcurrentMixes(t *testing.T) {
 	pool := boot.Pool()
 	stats.Check(t, 400, 1500, func(t *rapid.T) {
 		salt := atomic.AddUint64(&caseSeq, 1)
+		// A mix takes milliseconds. If its pool operations (or the clean-up) have not returned after
+		// three minutes the pool is hung - a corrupted container walked forever or a lock never
+		// released. That is "corrupt the pool", not a slow machine: report it as a failure with all
+		// goroutine stacks instead of waiting for the driver's hang guard.
+		wd := time.AfterFunc(180*time.Second, func() {
+			buf := make([]byte, 1<<20)
+			n := runtime.Stack(buf, true)
+			fmt.Printf("--- FAIL: TestConcurrentMixes\n    c17_test.go:1: pool operations of a concurrent mix did not return within 180 s: the pool is hung (corrupted pending container or a lock that is never released)\n%s\nFAIL\n", buf[:n])
+			os.Exit(1)
+		})
+		defer wd.Stop()
 		defer func() { _ = safely(func() { drainPool(pool) }) }()
 		if n := pool.TxNum(); n != 0 {
 			t.Fatalf("%d transactions are pending at case start although every key of the pending container was removed after the previous case: the container is corrupted", n)
